@@ -786,7 +786,7 @@ pub(super) fn compile_instruction(ctx: &mut Context, data: MatchData) -> Result<
 
                     let imm_expr = if negated {
                         quote_spanned!{ span=>
-                            let _dyn_imm: i32 = -#value;
+                            let _dyn_imm: i32 = -(#value);
                         }
                     } else {
                         quote_spanned!{ span=>
